@@ -56,6 +56,26 @@ type Node struct {
 	N    []int
 	Kids []*Node // visible causes (1 for wrappers, n for multi-cause)
 	Hid  []*Node // hidden errors (barrier payload, secondary, mark reference, error args)
+	// AliasOf > 0: this branch of a multi-cause node is not built on its own
+	// but is the very same object as the sibling with index AliasOf-1 (the
+	// spec below it is a copy of that sibling's).
+	AliasOf int
+}
+
+// AliasCopy returns a copy of the spec's structure for an aliased branch.
+// The string, argument and tag slices are shared with the original on
+// purpose: a later edit of a string (the correlation pass) then shows in
+// both, as it must for one and the same object.
+func (n *Node) AliasCopy() *Node {
+	c := *n
+	c.Kids, c.Hid = nil, nil
+	for _, k := range n.Kids {
+		c.Kids = append(c.Kids, k.AliasCopy())
+	}
+	for _, h := range n.Hid {
+		c.Hid = append(c.Hid, h.AliasCopy())
+	}
+	return &c
 }
 
 // Token describes one taint token of a spec.
@@ -165,6 +185,9 @@ func (n *Node) Shape() string {
 				if i > 0 {
 					b.WriteByte(',')
 				}
+				if k.AliasOf > 0 {
+					b.WriteByte('=')
+				}
 				walk(k)
 			}
 			for _, h := range n.Hid {
@@ -194,6 +217,10 @@ func (n *Node) Expr() string {
 		for _, k := range n.Kids {
 			b.WriteString(sep)
 			sep = ", "
+			if k.AliasOf > 0 {
+				fmt.Fprintf(&b, "same-object-as-branch-%d", k.AliasOf-1)
+				continue
+			}
 			walk(k)
 		}
 		for _, s := range n.S {
